@@ -52,6 +52,16 @@ func (f *g2lFn) usedOuter(nodes []ast.Node, before token.Pos, exclude map[*types
 			if !ok || v.IsField() || v.Parent() == f.p.pkg.Scope() || v.Pkg() != f.p.pkg {
 				return true
 			}
+			if cl, ok := f.closures[v]; ok {
+				// a call to a local closure needs the variables the closure captures
+				for _, cv := range append(append([]*types.Var{}, cl.capV...), cl.modV...) {
+					if cv.Pos() < before && !seen[cv] && !exclude[cv] {
+						seen[cv] = true
+						out = append(out, cv)
+					}
+				}
+				return true
+			}
 			if v.Pos() >= before || seen[v] || exclude[v] {
 				return true
 			}
@@ -267,6 +277,10 @@ func (f *g2lFn) forStmt(s *ast.ForStmt, rest kont) []string {
 	}
 	if s.Post != nil {
 		sp.post = func() []string { return f.simple(s.Post) }
+	}
+	if s.Cond == nil && !containsBreak(s.Body.List) {
+		// `for { … }` without break never falls through: what follows is unreachable (the Go compiler guarantees it)
+		rest = func() []string { return []string{"throw Err.panic"} }
 	}
 	return append(lines, f.buildLoop(sp, rest)...)
 }
